@@ -52,5 +52,11 @@ def selftest() -> int:
         print(f"inventory of /repo: {inv}")
     except Exception as e:  # the repo may be absent at setup time; not an error of the framework
         print(f"inventory skipped: {e}")
+    from .interp_stress import run as _stress
+    ok_n, msgs = _stress()
+    print(f"interpreter vs CPython on synthetic constructs: {ok_n} agree, {len(msgs)} differ")
+    for m in msgs:
+        print("  " + m)
+        bad += 1
     print("selftest", "FAILED" if bad else "OK")
     return 1 if bad else 0
